@@ -581,6 +581,12 @@ def run_routing(res):
     res.cov["translator"] = {"Route/gen/RouteGen.v": gen_status, "shapes": tr["shapes"]}
     pr = vlib.coq_check_props("Props/C08.v", runners=["Run/RouteRun.v"])
     res.add_proof(pr, CHECKER)
+    # the bridge: the broker model's own routing (Broker/Model.v: words, topic_match, matched_queues) IS this component
+    # model under the string -> bytes representation, so that C08's theorems speak about the broker LTS
+    prb = vlib.coq_check_props("Props/Bridge.v")
+    res.add_proof(prb, CHECKER + " && coqc -Q /verif/coq GMQ Props/Bridge.v")
+    if pr["ok"] and not prb["ok"]:
+        pr["ok"], pr["failed_file"], pr["error"] = False, prb.get("failed_file"), prb.get("error", "")
     res.cov["trusted_base"] = vlib.TRUSTED_BASE_COMMON + [
         "modelled, not verified: Go strings as byte lists; a Go map (amqp.Table, matchedQueues) as a key-sorted association list / duplicate-free list, its iteration order as list order (routing results proved order-independent as sets); reflect.DeepEqual and == on the scalar dynamic types of decoded tables (typed values, IEEE floats by bit pattern); bindLock makes each exchange method atomic",
         "the python re-statement of the AMQP routing rules in checks/C08.py is only the judge of failing inputs, never the reason the property holds",
